@@ -78,12 +78,12 @@ def ops_sig(ops):
 
 
 def view_sig(P, pos, rev, st, ops):
-    """class of the view for failure keys: orientation, strided, and the non-plain-slice steps taken"""
+    """class of the view for failure keys: orientation, strided, and the last history step (failures are reported
+    for the shortest failing prefix of a history, so the last step is the one that broke the property)"""
     parts = ["rev" if rev else "fwd"]
     if st > 1:
         parts.append("strided")
-    parts += sorted({op_kind(o) for o in ops} & {"cp", "dc", "dg", "s-"})
-    return ",".join(parts)
+    return ",".join(parts) + "/after=" + (op_kind(ops[-1]) if ops else "root")
 
 
 def display(P, pos, rev):
@@ -415,10 +415,16 @@ def contract_seq(case):
     res = _contract_seq(case)
     if res[0] == "fail":
         for k in range(len(hist)):
-            r = _contract_seq([new, rid, load, featset, hist[:k]])
-            if r[0] == "fail":
-                return r
+            pc = [new, rid, load, featset, hist[:k]]
+            key = repr(pc)
+            if key not in _PREFIX_CACHE:
+                _PREFIX_CACHE[key] = _contract_seq(pc)
+            if _PREFIX_CACHE[key][0] == "fail":
+                return _PREFIX_CACHE[key]
     return res
+
+
+_PREFIX_CACHE = {}
 
 
 def _contract_seq(case):
